@@ -4,7 +4,7 @@
 tier=${1:-quick}
 V=$(cd "$(dirname "$0")/.." && pwd)
 for d in "$V"/seeded/C*/; do
-  id=$(basename "$d"); prop=${id%b}
+  id=$(basename "$d"); prop=${id:0:3}
   out=$("$V/tools/try_seed.sh" "$d" "$prop" "$tier" 2>&1)
   if echo "$out" | grep -q "^VIOLATION"; then r=detected; else r="NOT detected"; fi
   first=$(echo "$out" | grep -m1 -E '^  (c-|C build|C\+\+ build|next/prev)' | cut -c1-160)
